@@ -720,10 +720,70 @@ func checkOpRedef(c *OpRedefCase) *Outcome {
 
 var c13opredef = Register(&Prop[OpRedefCase]{ID: "C13", Name: "operator-redefinition-elsewhere", Check: checkOpRedef})
 
+// ---- nothing is written to standard output by converting and evaluating host data, whatever
+// the numbers are (integers float64 cannot hold exactly, extremes of every width, float32)
+
+type SilentCase struct {
+	Env int `json:"env"`
+}
+
+var silentEnvs = []map[string]interface{}{
+	{"v": int64(1<<53 + 1)},
+	{"v": []int64{1, 1<<62 + 1, -(1<<53 + 1)}},
+	{"v": ^uint64(0)},
+	{"v": map[string]uint64{"a": math.MaxUint64, "b": 1<<63 + 1}},
+	{"v": struct {
+		N int64 `yae:"n"`
+		U uint  `yae:"u"`
+	}{math.MaxInt64, math.MaxUint32}},
+	{"v": float32(0.1)},
+	{"v": []int8{-128, 127}},
+	{"v": uint64(1 << 63)},
+	{"v": int64(math.MinInt64)},
+	{"v": []interface{}{int64(1<<53 + 1), uint32(7), 2.5}},
+	{"v": 1e308},
+	{"v": map[int64]string{1<<53 + 1: "x"}},
+}
+
+func checkSilent(c *SilentCase) *Outcome {
+	if c.Env < 0 || c.Env >= len(silentEnvs) {
+		return skip("bad-index")
+	}
+	env := silentEnvs[c.Env]
+	for _, src := range []string{"v", "string(v)", "[v]"} {
+		var p *run.Panic
+		out := run.CaptureStdout(func() {
+			p = run.Guard(func() {
+				_, _ = yae.Eval(src, env)
+				_, _, _ = yae.Debug(src, env)
+				for _, closureBE := range []bool{false, true} {
+					e := yae.NewExpr()
+					if closureBE {
+						e.UseClosureCompiler()
+					}
+					if cl, err := e.Compile(src, env); err == nil {
+						_, _ = cl(env)
+						_, _ = cl(env)
+					}
+				}
+			})
+		})
+		if p != nil {
+			return bad("evaluating %s over host data %#v panicked: %s", src, env["v"], p.Text)
+		}
+		if out != "" {
+			return bad("evaluating %s (no print in it) over host data %#v wrote to standard output: %q", src, env["v"], out)
+		}
+	}
+	return ok(true, "silent-over-extreme-host-numbers")
+}
+
+var c13silent = Register(&Prop[SilentCase]{ID: "C13", Name: "silent-host-conversion", Check: checkSilent})
+
 var c13hostmap = Register(&Prop[HostMapCase]{ID: "C13", Name: "host-map-order", Check: checkHostMap})
 
 func TestC13(t *testing.T) {
-	R.Rule = "histories of 3-25 operations over a pool of <= 4 expressions (results with multi-entry maps, objects, set operations, string(x), print), three engine instances (VM, closure, VM) and deliberately reused environment objects (one raw *types.Env, two raw *val.Env with different contents, host structs and maps): compile(expr, type object) on engine i; invoke(callable, value object); one-shot Eval; Debug; render an earlier result 16 times; one compile in three wraps the expression in a template calling the identity host function nest, and while nest runs inside an invocation another callable - possibly the very one being evaluated - is invoked to completion (an invocation nested in an evaluation, depth <= 2); oracle after every step: outcome = the reference evaluator on (expression, environment contents) alone, captured standard output = exactly the print lines, host values deep-equal to an identically built twin, every binding of the raw value environments reads as before, renderings never vary, an environment object used once is accepted again; plus eight precedence- / associativity-sensitive sources evaluated through Eval, a fresh engine and an engine created earlier, before and after ANOTHER engine registers an operator with the name and position of a built-in but another binding (six redefinitions, registered before or after that engine's first compilation): always the value the built-in table gives; plus Go maps as host data (time keys within one second and in two zones, neighbouring floats, strings, large integers, interface{} and pointer keys that do / do not denote the same number; 2-6 entries) evaluated 24 times each through string / len / == / get / isset / subscript with identical outcomes; plus repeated fresh evaluation of single programs (6 x 2 back ends) with identical result text and output; plus one source text (13 templates over overloaded / polymorphic built-ins) compiled 2-5 times on ONE engine against environments that give its variables different types, each step compared with a fresh engine, and the same text parsed once (Expr.Parse) with that one tree compiled at every step (Expr.CompileExpr), closures compiled earlier re-invoked after every later compilation; non-trivial = an environment object reused after another operation and a result with a multi-entry map or >= 2 results"
+	R.Rule = "histories of 3-25 operations over a pool of <= 4 expressions (results with multi-entry maps, objects, set operations, string(x), print), three engine instances (VM, closure, VM) and deliberately reused environment objects (one raw *types.Env, two raw *val.Env with different contents, host structs and maps): compile(expr, type object) on engine i; invoke(callable, value object); one-shot Eval; Debug; render an earlier result 16 times; one compile in three wraps the expression in a template calling the identity host function nest, and while nest runs inside an invocation another callable - possibly the very one being evaluated - is invoked to completion (an invocation nested in an evaluation, depth <= 2); oracle after every step: outcome = the reference evaluator on (expression, environment contents) alone, captured standard output = exactly the print lines, host values deep-equal to an identically built twin, every binding of the raw value environments reads as before, renderings never vary, an environment object used once is accepted again; plus eight precedence- / associativity-sensitive sources evaluated through Eval, a fresh engine and an engine created earlier, before and after ANOTHER engine registers an operator with the name and position of a built-in but another binding (six redefinitions, registered before or after that engine's first compilation): always the value the built-in table gives; plus host data with extreme numbers (integers float64 cannot hold exactly, the extremes of every width, float32) evaluated through Eval, Debug and Callables of both back ends with standard output captured: nothing is written; plus Go maps as host data (time keys within one second and in two zones, neighbouring floats, strings, large integers, interface{} and pointer keys that do / do not denote the same number; 2-6 entries) evaluated 24 times each through string / len / == / get / isset / subscript with identical outcomes; plus repeated fresh evaluation of single programs (6 x 2 back ends) with identical result text and output; plus one source text (13 templates over overloaded / polymorphic built-ins) compiled 2-5 times on ONE engine against environments that give its variables different types, each step compared with a fresh engine, and the same text parsed once (Expr.Parse) with that one tree compiled at every step (Expr.CompileExpr), closures compiled earlier re-invoked after every later compilation; non-trivial = an environment object reused after another operation and a result with a multi-entry map or >= 2 results"
 	R.Assume = []string{"ref.Eval and the characterised rendering of print"}
 	reportKnown(t, "C13")
 	runRegress(t, "C13")
@@ -742,6 +802,13 @@ func TestC13(t *testing.T) {
 				if !yield(&OpRedefCase{Redef: i, Late: late, Fresh: i%2 == 1}) {
 					return
 				}
+			}
+		}
+	})
+	c13silent.Each(t, "extreme-host-numbers", func(yield func(*SilentCase) bool) {
+		for i := range silentEnvs {
+			if !yield(&SilentCase{Env: i}) {
+				return
 			}
 		}
 	})
